@@ -2,6 +2,7 @@ package proc
 
 import (
 	"encoding/json"
+	"errors"
 	"os"
 	"strings"
 	"testing"
@@ -68,6 +69,36 @@ func TestHarnessSmoke(t *testing.T) {
 	}
 	if !in.Signer.Alive() || !in2.Signer.Alive() {
 		t.Fatal("not alive")
+	}
+	// a process that listens to its wallet directory takes in a key file added while it runs
+	in4, err := pool.FreshListener(&chain, nil, true)
+	if errors.Is(err, ErrListenerLimit) {
+		t.Logf("no inotify instance available: %v", err)
+	} else if err != nil {
+		t.Fatal(err)
+	} else {
+		extra := ExtraKey(0)
+		if strings.Contains(strings.Join(in4.Listed(), ","), extra.AddrHex) {
+			t.Fatal("the extra key is part of the start-up wallet")
+		}
+		if err := AddKey(in4.WalletDir, extra, 0, PlaceRename, true, ".key.json", ".pwd"); err != nil {
+			t.Fatal(err)
+		}
+		deadline := time.Now().Add(30 * time.Second)
+		for {
+			res, err := in4.Signer.Post([]byte(`{"jsonrpc":"2.0","id":1,"method":"eth_accounts"}`), 10*time.Second)
+			if err == nil && strings.Contains(string(res.Body), extra.AddrHex) {
+				break
+			}
+			if time.Now().After(deadline) {
+				t.Fatalf("the added key is not listed within 30 s: %v %s", err, res.Body)
+			}
+			time.Sleep(20 * time.Millisecond)
+		}
+		pool.Drop(in4)
+		if in4.Signer.Alive() {
+			t.Fatal("dropped listening instance still alive")
+		}
 	}
 	if len(pool.Pids()) != 2 {
 		t.Fatalf("pids: %v", pool.Pids())
